@@ -56,12 +56,20 @@ Proof. exact regain_forgets_reports. Qed.
 Print Assumptions C04_new_term_forgets_reports.
 
 (* a rejected message is not stored: what a publish step appends are messages of the batch that
-   are not too large, and a batch refused for its expected offset leaves the log unchanged (with
+   are not too large and whose value could be sealed, and a batch refused for its expected offset leaves the log unchanged (with
    concurrency control each message is a batch of its own) *)
 Theorem C04_only_accepted_messages_stored : forall s ms s' out, QInv s -> step s (LPublish ms) = (s', out) ->
-  exists st, l_log s' = l_log s ++ st /\ forall m, In m st -> In m ms /\ pm_too_large m = false.
+  exists st, l_log s' = l_log s ++ st /\ forall m, In m st -> In m ms /\ pm_too_large m = false /\ pm_seal_fails m = false.
 Proof. exact step_stores_only_accepted. Qed.
 Print Assumptions C04_only_accepted_messages_stored.
+
+(* ... and is negatively acknowledged: an encryption error for a value that cannot be sealed
+   (whatever its size), a too-large error otherwise *)
+Theorem C04_refused_messages_are_nacked : forall s ms s' out m, step s (LPublish ms) = (s', out) -> In m ms ->
+  (pm_seal_fails m = true -> In (mkAck (pm_corr m) (pm_policy m) 0 AEncryption) out) /\
+  (pm_seal_fails m = false -> pm_too_large m = true -> In (mkAck (pm_corr m) (pm_policy m) 0 ATooLarge) out).
+Proof. exact refused_messages_are_nacked. Qed.
+Print Assumptions C04_refused_messages_are_nacked.
 
 Theorem C04_refused_batch_not_stored : forall s ms s' out a, QInv s -> store_batch s ms = (s', out) -> In a out ->
   ak_kind a = AIncorrectOffset -> l_log s' = l_log s.
@@ -91,4 +99,12 @@ Example C04_two_terms :
              LFollower 2 2; LFollower 1 0; LRegain 0 1 0; LPublish [mkMsg 4 PAll false (-1)]; LFollower 1 2] in
   snd (run (init_state [0; 1; 2]%N 2 false) xs) = [] /\
   snd (run (init_state [0; 1; 2]%N 2 false) (xs ++ [LFollower 2 2])) = [mkAck 4 PAll 2 AOk].
+Proof. vm_compute. split; reflexivity. Qed.
+
+(* a batch on an encrypting stream: the value of message 2 cannot be sealed, message 3 is too large
+   and cannot be sealed either: 1 and 4 are stored *)
+Example C04_seal_failures :
+  let '(s, acks) := run (init_state [0%N] 1 false)
+                        [LPublish [mkMsg 1 PLeader false (-1); mkMsgE 2 PAll false (-1) true; mkMsgE 3 PLeader true (-1) true; mkMsg 4 PAll false (-1)]] in
+  acks = [mkAck 2 PAll 0 AEncryption; mkAck 3 PLeader 0 AEncryption; mkAck 1 PLeader 0 AOk; mkAck 4 PAll 1 AOk] /\ length (l_log s) = 2%nat.
 Proof. vm_compute. split; reflexivity. Qed.
